@@ -62,20 +62,22 @@ impl Read for Seg {
 #[derive(Clone, Debug)]
 struct Req { text: &'static str, oneway: bool, more: bool, expect: Exp }
 #[derive(Clone, Debug, PartialEq)]
-enum Exp { Params, Error(&'static str), Stream3, Nothing, CloseAfterNothing }
+enum Exp { Params, Error(&'static str), Stream3, Nothing, CloseAfterNothing, ErrorWith(&'static str, &'static str, &'static str), Info, Desc }
 fn alphabet() -> Vec<Req> {
     let mut v = Vec::new();
     let base: Vec<(&'static str, Exp)> = vec![
-        (r#""method":"org.varlink.service.GetInfo""#, Exp::Params),
-        (r#""method":"org.varlink.service.GetInterfaceDescription","parameters":{"interface":"org.example.t"}"#, Exp::Params),
-        (r#""method":"org.varlink.service.GetInterfaceDescription","parameters":{"interface":"nope"}"#, Exp::Error("org.varlink.service.InvalidParameter")),
-        (r#""method":"org.varlink.service.GetInterfaceDescription""#, Exp::Error("org.varlink.service.InvalidParameter")),
-        (r#""method":"org.varlink.service.Nope""#, Exp::Error("org.varlink.service.MethodNotFound")),
+        (r#""method":"org.varlink.service.GetInfo""#, Exp::Info),
+        (r#""method":"org.varlink.service.GetInterfaceDescription","parameters":{"interface":"org.example.t"}"#, Exp::Desc),
+        (r#""method":"org.varlink.service.GetInterfaceDescription","parameters":{"interface":"nope"}"#, Exp::ErrorWith("org.varlink.service.InvalidParameter", "parameter", "interface")),
+        (r#""method":"org.varlink.service.GetInterfaceDescription""#, Exp::ErrorWith("org.varlink.service.InvalidParameter", "parameter", "parameters")),
+        (r#""method":"org.varlink.service.Nope""#, Exp::ErrorWith("org.varlink.service.MethodNotFound", "method", "org.varlink.service.Nope")),
         (r#""method":"org.example.t.Ok""#, Exp::Params),
         (r#""method":"org.example.t.Fail""#, Exp::Error("org.example.t.Failed")),
-        (r#""method":"org.example.t.Nope""#, Exp::Error("org.varlink.service.MethodNotFound")),
-        (r#""method":"org.example.u.Ok""#, Exp::Error("org.varlink.service.InterfaceNotFound")),
-        (r#""method":"nodot""#, Exp::Error("org.varlink.service.InterfaceNotFound")),
+        (r#""method":"org.example.t.Nope""#, Exp::ErrorWith("org.varlink.service.MethodNotFound", "method", "org.example.t.Nope")),
+        (r#""method":"org.example.u.Ok""#, Exp::ErrorWith("org.varlink.service.InterfaceNotFound", "interface", "org.example.u")),
+        (r#""method":"org.example.t.sub.Ok""#, Exp::ErrorWith("org.varlink.service.InterfaceNotFound", "interface", "org.example.t.sub")),
+        (r#""method":"org.varlink.service.extra.Foo""#, Exp::ErrorWith("org.varlink.service.InterfaceNotFound", "interface", "org.varlink.service.extra")),
+        (r#""method":"nodot""#, Exp::ErrorWith("org.varlink.service.InterfaceNotFound", "interface", "nodot")),
         (r#""method":"org.example.t.Stream""#, Exp::Params),
     ];
     for (t, e) in base {
@@ -107,7 +109,10 @@ fn expected_shapes(seq: &[Req]) -> Vec<String> {
     for r in seq {
         match &r.expect {
             Exp::Params => e.push("params".to_string()),
+            Exp::Info => e.push("info".to_string()),
+            Exp::Desc => e.push("desc".to_string()),
             Exp::Error(n) => e.push(format!("error:{}", n)),
+            Exp::ErrorWith(n, k, v) => e.push(format!("error:{}:{}={}", n, k, v)),
             Exp::Stream3 => { e.push("cont".into()); e.push("cont".into()); e.push("params".into()); }
             Exp::Nothing | Exp::CloseAfterNothing => {}
         }
@@ -115,7 +120,25 @@ fn expected_shapes(seq: &[Req]) -> Vec<String> {
     e
 }
 fn shape(v: &Value) -> String {
-    if let Some(e) = v.get("error").and_then(|e| e.as_str()) { return format!("error:{}", e); }
+    if let Some(e) = v.get("error").and_then(|e| e.as_str()) {
+        if e.starts_with("org.varlink.service.") {
+            if let Some(o) = v.get("parameters").and_then(|p| p.as_object()) {
+                if let Some((k, val)) = o.iter().next() { return format!("error:{}:{}={}", e, k, val.as_str().unwrap_or("?")); }
+            }
+        }
+        return format!("error:{}", e);
+    }
+    if let Some(p) = v.get("parameters") {
+        if p.get("vendor").is_some() {
+            let ifs: Vec<&str> = p.get("interfaces").and_then(|i| i.as_array()).map(|a| a.iter().filter_map(|x| x.as_str()).collect()).unwrap_or_default();
+            let ok = p.get("vendor") == Some(&json!("v")) && p.get("product") == Some(&json!("p")) && p.get("version") == Some(&json!("1")) && p.get("url") == Some(&json!("u"))
+                && ifs.first() == Some(&"org.varlink.service") && ifs.len() == 2 && ifs[1] == "org.example.t";
+            return if ok { "info".into() } else { format!("info-wrong:{}", p) };
+        }
+        if let Some(d) = p.get("description").and_then(|d| d.as_str()) {
+            return if d == Scripted.get_description() { "desc".into() } else { "desc-wrong".into() };
+        }
+    }
     if v.get("continues").and_then(|c| c.as_bool()) == Some(true) { return "cont".into(); }
     "params".into()
 }
@@ -177,6 +200,49 @@ fn search_sequences(obs: &[&str]) {
     }
 }
 
+// C02: feed the stream in chunks, prepending the returned tail, as the API documents; every single cut and one byte at a time
+fn feed_chunks(chunks: &[&[u8]]) -> (Vec<u8>, Vec<u8>, bool) {
+    let svc = service();
+    let mut out = Vec::new();
+    let mut tail: Vec<u8> = Vec::new();
+    for c in chunks {
+        let mut buf = tail.clone();
+        buf.extend_from_slice(c);
+        match svc.handle(&mut &buf[..], &mut out, None) {
+            Ok((t, None)) => tail = t,
+            _ => return (out, tail, false),
+        }
+    }
+    (out, tail, true)
+}
+fn search_cuts(obs: &[&str]) {
+    let mut found = None;
+    let mut explored = 0;
+    let streams: Vec<Vec<u8>> = vec![
+        [render(&alphabet()[0]), render(&alphabet()[10]), render(&alphabet()[4])].concat(),
+        "{\"method\":\"org.ex\u{e4}mple.\u{20ac}\u{1F600}.Ping\",\"parameters\":{\"s\":\"\u{fc}\u{df}\u{20ac}\"}}\0{\"method\":\"org.varlink.service.GetInfo\"}\0{\"method\":\"incompl".as_bytes().to_vec(),
+    ];
+    for st in &streams {
+        let (whole_out, whole_tail, ok) = feed_chunks(&[&st[..]]);
+        if !ok { continue; }
+        for cut in 0..=st.len() {
+            explored += 1;
+            let (o, t, ok2) = feed_chunks(&[&st[..cut], &st[cut..]]);
+            if (!ok2 || o != whole_out || t != whole_tail) && found.is_none() {
+                found = Some(json!({"stream": String::from_utf8_lossy(st), "cut_at_byte": cut, "replies_chunked": String::from_utf8_lossy(&o), "replies_whole": String::from_utf8_lossy(&whole_out),
+                    "tail_chunked": format!("{:?}", t), "tail_whole": format!("{:?}", whole_tail), "handle_ok": ok2}));
+            }
+        }
+        explored += 1;
+        let singles: Vec<&[u8]> = st.chunks(1).collect();
+        let (o, t, ok2) = feed_chunks(&singles);
+        if (!ok2 || o != whole_out || t != whole_tail) && found.is_none() {
+            found = Some(json!({"stream": String::from_utf8_lossy(st), "cut": "one byte at a time", "replies_chunked": String::from_utf8_lossy(&o), "replies_whole": String::from_utf8_lossy(&whole_out)}));
+        }
+    }
+    for ob in obs { emit(ob, found.is_some(), explored, found.clone().unwrap_or(Value::Null)); }
+}
+
 // C05.gate: continues without more must fail and write nothing
 fn search_gate(ob: &str) {
     let mut found = None;
@@ -199,6 +265,21 @@ fn search_malformed(ob: &str) {
     let good = render(&Req { text: r#""method":"org.varlink.service.GetInfo""#, oneway: false, more: false, expect: Exp::Params });
     let mut found = None;
     let mut explored = 0;
+    let mut long_bads: Vec<Vec<u8>> = Vec::new();
+    for pad in 200..300 {
+        let mut m = vec![b'x'; pad];
+        m.extend_from_slice("\u{e9}\u{20ac}\u{1F600}".as_bytes());
+        m.extend(vec![b'y'; 40]);
+        m.push(0);
+        long_bads.push(m);
+        let mut m2 = vec![b'x'; pad];
+        m2.push(0xff);
+        m2.extend(vec![b'y'; 300]);
+        m2.push(0);
+        long_bads.push(m2);
+    }
+    let mut bads: Vec<&[u8]> = bads;
+    for b in &long_bads { bads.push(&b[..]); }
     for k in 0..3 {
         for bad in &bads {
             explored += 1;
@@ -454,6 +535,179 @@ fn search_client(obs: &[&str]) {
         let mut c2 = MC::new(conn.clone(), "a.b.Two", json!({}));
         match c2.call() { Ok(v) if v == json!({"only": 1}) => {}, x => fail(json!({"observed": format!("call after oneway: {:?}", x.map_err(|e| format!("{:?}", e.kind()))), "expected": "the reply that was in the stream (oneway must not consume it)"})) }
     }
+    // a `more` iteration whose final reply is an error ends there: next() yields None afterwards and the connection is free
+    for k in 0..3 {
+        explored += 1;
+        let mut stream = Vec::new();
+        for n in 0..k { stream.extend_from_slice(format!("{{\"continues\":true,\"parameters\":{{\"n\":{}}}}}\0", n).as_bytes()); }
+        stream.extend_from_slice(b"{\"error\":\"org.example.Boom\"}\0{\"parameters\":{\"after\":1}}\0");
+        let (conn, _w) = client_conn(&stream);
+        let mut it = MC::new(conn.clone(), "a.b.More", json!({}));
+        if it.more().is_err() { fail(json!({"observed": "more() failed"})); continue; }
+        let mut items = Vec::new();
+        for _ in 0..(k + 6) {
+            match it.next() { None => break, Some(r) => items.push(match r { Ok(v) => v.to_string(), Err(e) => format!("Err({:?})", e.kind()).chars().take(24).collect() }) }
+        }
+        if items.len() != k + 1 { fail(json!({"continues_replies": k, "final": "error reply", "items_yielded_by_next": items, "expected_items": k + 1})); }
+        let mut after = MC::new(conn.clone(), "a.b.After", json!({}));
+        match after.call() { Ok(v) if v == json!({"after": 1}) => {}, x => fail(json!({"observed": format!("call after an iteration that ended in an error: {:?}", x.map_err(|e| format!("{:?}", e.kind())))})) }
+    }
+    // a final reply whose parameters do not decode is an error for that call, and the connection is usable afterwards
+    {
+        explored += 1;
+        #[derive(serde_derive::Deserialize, Debug)]
+        struct Typed { #[allow(dead_code)] v: i64 }
+        let (conn, _w) = client_conn(b"{\"parameters\":{\"v\":\"not a number\"}}\0{\"parameters\":{\"v\":7}}\0");
+        let mut c1 = varlink::MethodCall::<Value, Typed, varlink::Error>::new(conn.clone(), "a.b.T", json!({}));
+        if c1.call().is_ok() { fail(json!({"observed": "ill-typed parameters decoded"})); }
+        let mut c2 = varlink::MethodCall::<Value, Typed, varlink::Error>::new(conn.clone(), "a.b.T", json!({}));
+        match c2.call() { Ok(_) => {}, Err(e) => fail(json!({"observed": format!("call after a reply with ill-typed parameters: {:?}", e.kind()), "expected": "Ok (the connection is usable again after the final reply)"})) }
+    }
+    for ob in obs { emit(ob, found.is_some(), explored, found.clone().unwrap_or(Value::Null)); }
+}
+
+// C07 (threads): a call whose request is still being serialised while another thread starts a `more` iteration on the same connection
+struct Gate { entered: std::sync::atomic::AtomicBool, release: std::sync::atomic::AtomicBool }
+struct SlowArgs { gate: Arc<Gate> }
+impl serde::Serialize for SlowArgs {
+    fn serialize<S: serde::Serializer>(&self, s: S) -> Result<S::Ok, S::Error> {
+        use serde::ser::SerializeMap;
+        self.gate.entered.store(true, Ordering::SeqCst);
+        let t0 = std::time::Instant::now();
+        while !self.gate.release.load(Ordering::SeqCst) && t0.elapsed() < Duration::from_millis(1500) { std::thread::sleep(Duration::from_millis(2)); }
+        let m = s.serialize_map(Some(0))?;
+        m.end()
+    }
+}
+fn search_client_threads(obs: &[&str]) {
+    let mut found = None;
+    let mut explored = 0;
+    for _round in 0..3 {
+        explored += 1;
+        let (conn, _w) = client_conn(b"{\"continues\":true,\"parameters\":{\"n\":1}}\0{\"parameters\":{\"n\":2}}\0{\"parameters\":{\"x\":1}}\0");
+        let gate = Arc::new(Gate { entered: Default::default(), release: Default::default() });
+        let (c2, g2) = (conn.clone(), gate.clone());
+        let a = std::thread::spawn(move || {
+            let mut mc = varlink::MethodCall::<SlowArgs, Value, varlink::Error>::new(c2, "a.b.Slow", SlowArgs { gate: g2 });
+            mc.call().map(|_| ()).map_err(|e| format!("{:?}", e.kind()))
+        });
+        let t0 = std::time::Instant::now();
+        while !gate.entered.load(Ordering::SeqCst) && t0.elapsed() < Duration::from_secs(5) { std::thread::sleep(Duration::from_millis(1)); }
+        let g3 = gate.clone();
+        let rel = std::thread::spawn(move || { std::thread::sleep(Duration::from_millis(150)); g3.release.store(true, Ordering::SeqCst); });
+        let mut b = MC::new(conn.clone(), "a.b.Stream", json!({}));
+        let b_res = b.more().map(|_| ()).map_err(|e| format!("{:?}", e.kind()));
+        let _ = rel.join();
+        let a_res = a.join();
+        let poisoned = conn.write().is_err();
+        let a_txt = match &a_res { Ok(r) => format!("{:?}", r), Err(_) => "PANIC".to_string() };
+        let clean = |r: &Result<(), String>| r.is_ok() || r.as_ref().err().map(|e| e == "ConnectionBusy").unwrap_or(false);
+        let both_ok = matches!(&a_res, Ok(Ok(()))) && b_res.is_ok();
+        if (a_res.is_err() || poisoned || !clean(&b_res) || !a_res.as_ref().map(clean).unwrap_or(false) || both_ok) && found.is_none() {
+            found = Some(json!({"thread_A_call_with_slow_serialisation": a_txt, "thread_B_more": format!("{:?}", b_res), "connection_lock_poisoned": poisoned,
+                "expected": "each operation either completes or fails with ConnectionBusy; never both outstanding; no panic"}));
+        }
+    }
+    for ob in obs { emit(ob, found.is_some(), explored, found.clone().unwrap_or(Value::Null)); }
+}
+
+// C15: idle timeout measured from the last accepted connection; queued connections are served before listen() returns
+fn search_listen_time(obs: &[&str]) {
+    use std::os::unix::net::UnixStream;
+    let mut found = None;
+    let mut explored = 0;
+    // (a) idle timeout with a stop flag configured (never set): a connection arriving mid-way restarts the countdown
+    {
+        explored += 1;
+        let dir = std::env::temp_dir().join(format!("vx-replay-idle-{}", std::process::id()));
+        let _ = std::fs::create_dir_all(&dir);
+        let path = dir.join("sock");
+        let addr = format!("unix:{}", path.display());
+        let stop = Arc::new(std::sync::atomic::AtomicBool::new(false));
+        let t0 = std::time::Instant::now();
+        let t = std::thread::spawn(move || {
+            let r = varlink::listen(service(), &addr, &varlink::ListenConfig { initial_worker_threads: 1, max_worker_threads: 4, idle_timeout: 1, stop_listening: Some(stop) });
+            (r.map_err(|e| format!("{:?}", e.kind())), std::time::Instant::now())
+        });
+        std::thread::sleep(Duration::from_millis(600));
+        let t_conn = std::time::Instant::now();
+        if let Ok(mut c) = UnixStream::connect(&path) {
+            let _ = c.write_all(&render(&alphabet()[0]));
+            let mut b = [0u8; 4096];
+            let _ = c.set_read_timeout(Some(Duration::from_millis(500)));
+            let _ = c.read(&mut b);
+        }
+        let (r, t_ret) = t.join().unwrap_or((Err("PANIC".into()), std::time::Instant::now()));
+        let since_conn = t_ret.duration_since(t_conn).as_millis() as u64;
+        let _ = std::fs::remove_dir_all(&dir);
+        if (r != Err("Timeout".to_string()) || since_conn < 950) && found.is_none() {
+            found = Some(json!({"idle_timeout_s": 1, "stop_flag": "configured, never set", "connection_at_ms": 600, "listen_result": format!("{:?}", r),
+                "returned_ms_after_last_connection": since_conn, "returned_ms_after_start": t_ret.duration_since(t0).as_millis() as u64, "expected": ">= 1000 ms after the last connection"}));
+        }
+    }
+    // (b) a connection queued behind a long-lived one when the stop flag is set is still served to completion
+    {
+        explored += 1;
+        let dir = std::env::temp_dir().join(format!("vx-replay-drain-{}", std::process::id()));
+        let _ = std::fs::create_dir_all(&dir);
+        let path = dir.join("sock");
+        let addr = format!("unix:{}", path.display());
+        let stop = Arc::new(std::sync::atomic::AtomicBool::new(false));
+        let stop2 = stop.clone();
+        let t = std::thread::spawn(move || varlink::listen(service(), &addr, &varlink::ListenConfig { initial_worker_threads: 1, max_worker_threads: 1, idle_timeout: 0, stop_listening: Some(stop2) }).map_err(|e| format!("{:?}", e.kind())));
+        std::thread::sleep(Duration::from_millis(200));
+        let a = UnixStream::connect(&path);
+        std::thread::sleep(Duration::from_millis(150));
+        let mut got = Vec::new();
+        if let Ok(mut b) = UnixStream::connect(&path) {
+            let _ = b.write_all(&render(&alphabet()[0]));
+            std::thread::sleep(Duration::from_millis(150));
+            stop.store(true, Ordering::SeqCst);
+            std::thread::sleep(Duration::from_millis(300));
+            drop(a);
+            let _ = b.set_read_timeout(Some(Duration::from_millis(1500)));
+            let mut buf = [0u8; 4096];
+            if let Ok(n) = b.read(&mut buf) { got.extend_from_slice(&buf[..n]); }
+        }
+        let r = t.join().unwrap_or(Err("PANIC".into()));
+        let _ = std::fs::remove_dir_all(&dir);
+        if (got.is_empty() || r.is_err()) && found.is_none() {
+            found = Some(json!({"workers": "initial = max = 1", "history": "A connects and stays idle; B connects and sends GetInfo (queued); stop flag set; A disconnects",
+                "reply_bytes_received_by_B": got.len(), "listen_result": format!("{:?}", r), "expected": "B is served before listen() returns Ok"}));
+        }
+    }
+    for ob in obs { emit(ob, found.is_some(), explored, found.clone().unwrap_or(Value::Null)); }
+}
+
+// C17: Request / Reply round trips over the full flag domain {unset, true, false}
+fn search_wire_roundtrip(obs: &[&str]) {
+    let mut found = None;
+    let mut explored = 0;
+    let flags = [None, Some(true), Some(false)];
+    for more in flags { for oneway in flags { for upgrade in flags { for params in [None, Some(json!({"a": [1, "x", null]}))] {
+        explored += 1;
+        let mut r = varlink::Request::create("a.b.C", params.clone());
+        r.more = more; r.oneway = oneway; r.upgrade = upgrade;
+        let text = serde_json::to_string(&r).unwrap();
+        let val = serde_json::to_value(&r).unwrap();
+        let a: Option<varlink::Request> = serde_json::from_str(&text).ok();
+        let b: Option<varlink::Request> = serde_json::from_slice(text.as_bytes()).ok();
+        let c: Option<varlink::Request> = serde_json::from_value(val.clone()).ok();
+        let omitted_ok = val.as_object().map(|o| o.contains_key("more") == more.is_some() && o.contains_key("oneway") == oneway.is_some() && o.contains_key("upgrade") == upgrade.is_some() && o.contains_key("parameters") == params.is_some()).unwrap_or(false);
+        if !(a.as_ref() == Some(&r) && b.as_ref() == Some(&r) && c.as_ref() == Some(&r) && omitted_ok) && found.is_none() {
+            found = Some(json!({"request": format!("{:?}", r), "serialized": text, "from_str_equal": a.as_ref() == Some(&r), "from_value_equal": c.as_ref() == Some(&r), "unset_members_omitted_and_set_members_present": omitted_ok}));
+        }
+    }}}}
+    for cont in flags { for err in [None, Some("org.example.E")] {
+        explored += 1;
+        let r = varlink::Reply { continues: cont, error: err.map(|e| e.into()), parameters: Some(json!({"k": "v"})) };
+        let text = serde_json::to_string(&r).unwrap();
+        let a: Option<varlink::Reply> = serde_json::from_str(&text).ok();
+        let c: Option<varlink::Reply> = serde_json::to_value(&r).ok().and_then(|v| serde_json::from_value(v).ok());
+        if !(a.as_ref() == Some(&r) && c.as_ref() == Some(&r)) && found.is_none() {
+            found = Some(json!({"reply": format!("{:?}", r), "serialized": text, "from_str_equal": a.as_ref() == Some(&r), "from_value_equal": c.as_ref() == Some(&r)}));
+        }
+    }}
     for ob in obs { emit(ob, found.is_some(), explored, found.clone().unwrap_or(Value::Null)); }
 }
 
@@ -468,6 +722,8 @@ fn main() {
     let seq_obs: Vec<&str> = ["C01.served", "C01.answers", "C01.record", "C01.prefix-answered", "C02.conserve", "C06.reject", "C04.silent", "C04.funnel", "C05.wire",
         "C03.route", "C03.builtin", "C03.split", "C03.std-error", "C03.info", "C06.no-panic"].iter().cloned().filter(|o| m(o)).collect();
     if !seq_obs.is_empty() { search_sequences(&seq_obs); }
+    let cut_obs: Vec<&str> = ["C02.conserve", "C02.tail", "C01.served"].iter().cloned().filter(|o| m(o)).collect();
+    if !cut_obs.is_empty() { search_cuts(&cut_obs); }
     if m("C05.gate") { search_gate("C05.gate"); }
     if m("C06.no-reply") { search_malformed("C06.no-reply"); }
     if m("C02.upgrade") { search_upgrade("C02.upgrade"); }
@@ -479,4 +735,10 @@ fn main() {
     if m("C14.w-monotone") { search_pool_strand("C14.w-monotone"); }
     let cl: Vec<&str> = ["C07.once", "C07.busy", "C07.take", "C07.outcome", "C07.kind", "C07.owner", "C07.wire", "C05.recv", "C05.next", "C05.more", "C04.client", "C07.no-panic"].iter().cloned().filter(|o| m(o)).collect();
     if !cl.is_empty() { search_client(&cl); }
+    let th: Vec<&str> = ["C07.busy", "C07.take", "C07.no-panic"].iter().cloned().filter(|o| m(o)).collect();
+    if !th.is_empty() { search_client_threads(&th); }
+    let lt: Vec<&str> = ["C15.idle", "C15.drain", "C15.drain-w", "C15.busy", "C15.stop", "C15.no-panic"].iter().cloned().filter(|o| m(o)).collect();
+    if !lt.is_empty() { search_listen_time(&lt); }
+    let wr: Vec<&str> = ["C17.wire-attrs"].iter().cloned().filter(|o| m(o)).collect();
+    if !wr.is_empty() { search_wire_roundtrip(&wr); }
 }
